@@ -51,16 +51,24 @@ pub broadcast proof fn axiom_f64_le_fn(a: f64, b: f64, o: bool)
 { }
 // `==` between two `&f64` goes through `<&f64 as PartialEq>::eq`, specified by vstd via `eq_spec`.
 #[verifier::external_body]
+pub broadcast proof fn axiom_f64_obeys_eq()
+    ensures #[trigger] <f64 as PartialEqSpec<f64>>::obeys_eq_spec()
+{ }
+#[verifier::external_body]
 pub broadcast proof fn axiom_f64_eq_fn(a: f64, b: f64)
-    ensures <f64 as PartialEqSpec<f64>>::obeys_eq_spec(), #[trigger] a.eq_spec(&b) == f64_eq(a, b)
+    ensures #[trigger] a.eq_spec(&b) == f64_eq(a, b)
 { }
 // std: `Rc<str> == Rc<str>` compares the string contents.
 #[verifier::external_body]
+pub broadcast proof fn axiom_rc_str_obeys_eq()
+    ensures #[trigger] <Rc<str> as PartialEqSpec<Rc<str>>>::obeys_eq_spec()
+{ }
+#[verifier::external_body]
 pub broadcast proof fn axiom_rc_str_eq(a: Rc<str>, b: Rc<str>)
-    ensures <Rc<str> as PartialEqSpec<Rc<str>>>::obeys_eq_spec(), #[trigger] a.eq_spec(&b) == (a@ == b@)
+    ensures #[trigger] a.eq_spec(&b) == (a@ == b@)
 { }
 pub broadcast group group_constraint_rt_models {
-    axiom_f64_ge_fn, axiom_f64_le_fn, axiom_f64_eq_fn, axiom_rc_str_eq,
+    axiom_f64_ge_fn, axiom_f64_le_fn, axiom_f64_obeys_eq, axiom_f64_eq_fn, axiom_rc_str_obeys_eq, axiom_rc_str_eq,
 }
 } // mod constraint_rt_axioms
 pub use constraint_rt_axioms::*;
